@@ -49,6 +49,8 @@ type Check struct {
 	ScheduleAll bool              `json:"schedule_all"`
 	Preemptions map[string]int    `json:"preemptions"`
 	QueryMs     map[string]int    `json:"query_ms"`
+	Solver      string            `json:"solver"`
+	Fallback    string            `json:"fallback"`
 }
 
 type KnownFinding struct {
@@ -196,6 +198,7 @@ type harnessEvidence struct {
 	Sat            int               `json:"queries_sat"`
 	Unsat          int               `json:"queries_unsat"`
 	Unknown        int               `json:"queries_unknown"`
+	Fallback       int               `json:"queries_decided_by_second_solver"`
 	Asserts        int               `json:"assertions_checked"`
 	AssertsUnknown int               `json:"assertions_undecided"`
 	SolverS        float64           `json:"solver_time_s"`
@@ -285,6 +288,12 @@ func cmdCheck(args []string) int {
 		}
 		eng.Workers = *workers
 		eng.SolverKind = *solver
+		if ck.Solver != "" {
+			eng.SolverKind = ck.Solver
+		}
+		if ck.Fallback != "" {
+			eng.FallbackSolver = ck.Fallback
+		}
 		eng.Thorough = *tier == "thorough"
 		eng.ScheduleAll = ck.ScheduleAll
 		if ms, ok := ck.QueryMs[*tier]; ok {
@@ -320,7 +329,7 @@ func cmdCheck(args []string) int {
 			}
 			res := eng.Explore(cfg)
 			he := harnessEvidence{Name: n, Paths: res.Paths, ByKind: res.ByKind, Reached: res.Reached, Decisions: res.Decisions, Steps: res.Steps,
-				Queries: res.Queries, Sat: res.QSat, Unsat: res.QUnsat, Unknown: res.QUnknown, SolverS: res.SolverTime.Seconds(), WallS: res.Wall.Seconds(),
+				Queries: res.Queries, Sat: res.QSat, Unsat: res.QUnsat, Unknown: res.QUnknown, Fallback: res.Fallback, SolverS: res.SolverTime.Seconds(), WallS: res.Wall.Seconds(),
 				Truncated: res.Truncated, Notes: res.Notes, Incomplete: res.Incomplete, Samples: res.Samples, Asserts: res.Asserts, AssertsUnknown: res.AssertsUnknown}
 			for in := range res.Inputs {
 				he.Inputs = append(he.Inputs, in)
@@ -637,7 +646,7 @@ func writeEvidence(id, tier string, seed int64, ck *Check, hes []harnessEvidence
 		"queries_unknown":               unknown,
 		"assertions_checked":            asserts,
 		"solver_time_s":                 solverS,
-		"solver":                        "z3 4.8.12 (persistent z3 -in per worker)",
+		"solver":                        "z3 4.8.12 (persistent z3 -in per worker); queries it answers unknown are re-decided by z3 5.1.0 (z3-new) on the full path condition",
 		"inconclusive":                  inconclusive,
 		"harnesses":                     hes,
 		"programs":                      max(len(hes), 1),
